@@ -66,7 +66,10 @@ type Exec struct {
 	OnYield func(x *Exec)
 	// StateKey, when set, enables visited-state pruning: it must return the complete
 	// future-relevant state (see DESIGN.md).
-	StateKey  func(x *Exec) string
+	StateKey func(x *Exec) string
+	// OnResume is called in thread t right after it continues from a scheduling point
+	// (state keys fold what the thread can now observe into its history digest).
+	OnResume  func(x *Exec, t *Thread)
 	costUsed  int
 	Violation string
 }
@@ -380,6 +383,9 @@ func (x *Exec) schedule(t *Thread) {
 	}
 	if next == t {
 		t.state = runnable
+		if x.OnResume != nil {
+			x.OnResume(x, t)
+		}
 		return
 	}
 	x.running = next
@@ -391,6 +397,9 @@ func (x *Exec) schedule(t *Thread) {
 	<-t.wake
 	if x.aborted {
 		panic(abortSentinel{})
+	}
+	if x.OnResume != nil {
+		x.OnResume(x, t)
 	}
 }
 
